@@ -92,6 +92,50 @@ Proof.
   rewrite <- E1, <- E2, E. reflexivity.
 Qed.
 
+(* general form: whatever numpy makes of the right-hand side by broadcasting, described by [val] *)
+Theorem setindex_orthogonal_gen (a rhs : nd R) raw (val : list nat -> R) :
+  length raw = length (shp a) -> Forall2 (fun r m => raw_ok r m = true) raw (shp a) -> Forall raw_nodup raw ->
+  length (dat a) = size (shp a) ->
+  (let osh := out_shape raw (shp a) in
+   let rsh := match osh with [] => shp rhs | _ => strip_ones (shp rhs) (length osh) end in
+   bcast_to rsh osh = true /\ forall idx, Forall2 lt idx osh -> rhs_at R rO rsh (dat rhs) idx = val idx) ->
+  exists w, setindex R rO a (to_sels raw (shp a)) rhs = Ok w /\ shp w = shp a /\ length (dat w) = length (dat a)
+    /\ (forall idx, Forall2 lt idx (out_shape raw (shp a)) -> get rO (shp a) (dat w) (pull raw idx) = val idx)
+    /\ (forall src, Forall2 lt src (shp a) ->
+          (forall idx, Forall2 lt idx (out_shape raw (shp a)) -> pull raw idx <> src) ->
+          get rO (shp a) (dat w) src = get rO (shp a) (dat a) src).
+Proof.
+  intros Hl Hok Hnd Hla Hrhs.
+  destruct (to_sels_orthogonal raw (shp a) Hl Hok) as (p & Hp & Ho & Hs).
+  cbv zeta in Hrhs. rewrite <- Ho in Hrhs. destruct Hrhs as [Hb Hval].
+  unfold setindex. rewrite Hp. cbv zeta. rewrite Hb.
+  eexists. split; [reflexivity|]. cbn [shp dat].
+  split; [reflexivity|]. split; [apply fold_upd_length|].
+  set (rsh := match p_osh p with [] => shp rhs | _ :: _ => strip_ones (shp rhs) (length (p_osh p)) end) in *.
+  set (pos := fun idx => ravel (shp a) (src_of (to_sels raw (shp a)) p idx)).
+  set (vl := fun idx => rhs_at R rO rsh (dat rhs) idx).
+  split.
+  - intros idx Hidx. unfold get.
+    assert (Hin : In idx (all_idx (p_osh p))) by (apply all_idx_in; rewrite Ho; exact Hidx).
+    assert (Epos : ravel (shp a) (pull raw idx) = pos idx) by (unfold pos; rewrite Hs by exact Hidx; reflexivity).
+    rewrite Epos.
+    change (nth (pos idx) (fold_left (fun acc y => upd R acc (pos y) (vl y)) (all_idx (p_osh p)) (dat a)) rO = val idx).
+    rewrite (fold_upd_hit pos vl (all_idx (p_osh p)) (dat a) idx rO).
+    + unfold vl. apply Hval. rewrite Ho. exact Hidx.
+    + apply NoDup_map_inj_in; [|apply all_idx_NoDup].
+      intros x y Hx Hy E. apply all_idx_in in Hx, Hy. rewrite Ho in Hx, Hy. unfold pos in E.
+      rewrite (Hs x Hx), (Hs y Hy) in E.
+      apply (ravel_inj (shp a)) in E; try (apply pull_in_range; auto).
+      apply (pull_inj raw (shp a)); auto.
+    + exact Hin.
+    + unfold pos. rewrite Hs by exact Hidx. rewrite Hla.
+      apply (proj2 (nth_all_idx (shp a) _ (pull_in_range raw (shp a) idx Hl Hok Hidx))).
+  - intros src Hsrc Hno. unfold get. apply (fold_upd_frame R pos vl).
+    intros idx Hin E. apply all_idx_in in Hin. rewrite Ho in Hin. unfold pos in E. rewrite (Hs idx Hin) in E.
+    apply (ravel_inj (shp a)) in E; auto; [|apply pull_in_range; auto]. apply (Hno idx Hin). exact E.
+Qed.
+
+(* a right-hand side of exactly the region's shape: entry for entry *)
 Theorem setindex_orthogonal (a rhs : nd R) raw :
   length raw = length (shp a) -> Forall2 (fun r m => raw_ok r m = true) raw (shp a) -> Forall raw_nodup raw ->
   length (dat a) = size (shp a) ->
@@ -104,35 +148,36 @@ Theorem setindex_orthogonal (a rhs : nd R) raw :
           get rO (shp a) (dat w) src = get rO (shp a) (dat a) src).
 Proof.
   intros Hl Hok Hnd Hla Hrs.
-  destruct (to_sels_orthogonal raw (shp a) Hl Hok) as (p & Hp & Ho & Hs).
-  unfold setindex. rewrite Hp. cbv zeta.
-  assert (Ersh : match p_osh p with [] => shp rhs | _ :: _ => strip_ones (shp rhs) (length (p_osh p)) end = p_osh p).
-  { rewrite Ho, <- Hrs. destruct (shp rhs); [reflexivity|]. apply strip_ones_same. }
-  rewrite Ersh, bcast_to_self. eexists. split; [reflexivity|]. cbn [shp dat].
-  split; [reflexivity|]. split; [apply fold_upd_length|].
-  set (pos := fun idx => ravel (shp a) (src_of (to_sels raw (shp a)) p idx)).
-  set (val := fun idx => rhs_at R rO (p_osh p) (dat rhs) idx).
-  split.
-  - intros idx Hidx. unfold get.
-    assert (Hin : In idx (all_idx (p_osh p))) by (apply all_idx_in; rewrite Ho; exact Hidx).
-    assert (Epos : ravel (shp a) (pull raw idx) = pos idx) by (unfold pos; rewrite Hs by exact Hidx; reflexivity).
-    rewrite Epos.
-    change (nth (pos idx) (fold_left (fun acc y => upd R acc (pos y) (val y)) (all_idx (p_osh p)) (dat a)) rO
-            = nth (ravel (shp rhs) idx) (dat rhs) rO).
-    rewrite (fold_upd_hit pos val (all_idx (p_osh p)) (dat a) idx rO).
-    + unfold val. rewrite rhs_at_exact by (rewrite Ho; exact Hidx). rewrite Ho, <- Hrs. reflexivity.
-    + (* positions of different output indices differ *)
-      apply NoDup_map_inj_in; [|apply all_idx_NoDup].
-      intros x y Hx Hy E. apply all_idx_in in Hx, Hy. rewrite Ho in Hx, Hy. unfold pos in E.
-      rewrite (Hs x Hx), (Hs y Hy) in E.
-      apply (ravel_inj (shp a)) in E; try (apply pull_in_range; auto).
-      apply (pull_inj raw (shp a)); auto.
-    + exact Hin.
-    + unfold pos. rewrite Hs by exact Hidx. rewrite Hla.
-      apply (proj2 (nth_all_idx (shp a) _ (pull_in_range raw (shp a) idx Hl Hok Hidx))).
-  - intros src Hsrc Hno. unfold get. apply (fold_upd_frame R pos val).
-    intros idx Hin E. apply all_idx_in in Hin. rewrite Ho in Hin. unfold pos in E. rewrite (Hs idx Hin) in E.
-    apply (ravel_inj (shp a)) in E; auto; [|apply pull_in_range; auto]. apply (Hno idx Hin). exact E.
+  apply (setindex_orthogonal_gen a rhs raw (fun idx => get rO (shp rhs) (dat rhs) idx) Hl Hok Hnd Hla).
+  cbv zeta. rewrite <- Hrs.
+  assert (E : match shp rhs with [] => shp rhs | _ :: _ => strip_ones (shp rhs) (length (shp rhs)) end = shp rhs).
+  { destruct (shp rhs); [reflexivity|]. apply strip_ones_same. }
+  rewrite E. split; [apply bcast_to_self|]. intros idx Hidx. apply rhs_at_exact. exact Hidx.
+Qed.
+
+(* a number (0-dimensional right-hand side) fills the region *)
+Lemma bcast_to_scalar osh : bcast_to [] osh = true.
+Proof.
+  unfold bcast_to, bcast. simpl. rewrite rev_involutive.
+  destruct (list_eq_dec Nat.eq_dec osh osh); [reflexivity | contradiction].
+Qed.
+
+Theorem setindex_fill (a : nd R) raw (c : R) :
+  length raw = length (shp a) -> Forall2 (fun r m => raw_ok r m = true) raw (shp a) -> Forall raw_nodup raw ->
+  length (dat a) = size (shp a) ->
+  exists w, setindex R rO a (to_sels raw (shp a)) (mk_nd [] [c]) = Ok w /\ shp w = shp a /\ length (dat w) = length (dat a)
+    /\ (forall idx, Forall2 lt idx (out_shape raw (shp a)) -> get rO (shp a) (dat w) (pull raw idx) = c)
+    /\ (forall src, Forall2 lt src (shp a) ->
+          (forall idx, Forall2 lt idx (out_shape raw (shp a)) -> pull raw idx <> src) ->
+          get rO (shp a) (dat w) src = get rO (shp a) (dat a) src).
+Proof.
+  intros Hl Hok Hnd Hla.
+  apply (setindex_orthogonal_gen a (mk_nd [] [c]) raw (fun _ => c) Hl Hok Hnd Hla).
+  cbv zeta. cbn [shp dat].
+  assert (E : match out_shape raw (shp a) with [] => [] | _ :: _ => strip_ones [] (length (out_shape raw (shp a))) end = @nil nat).
+  { destruct (out_shape raw (shp a)); reflexivity. }
+  rewrite E. split; [apply bcast_to_scalar|].
+  intros idx _. unfold rhs_at, get. cbn [length map2 ravel nth]. destruct (skipn (length idx - 0) idx); reflexivity.
 Qed.
 
 End S.
